@@ -56,6 +56,9 @@ func NewDefaultReader(rd io.Reader) *DefaultReader {
 func NewBytesReader(buf []byte) *BytesReader {
 	r := &BytesReader{}
 	r.reset(r.fakedIOReader, buf)
+	// all the data there will ever be is buf[:len(buf)]: never grow or allocate a
+	// buffer to wait for more, a request beyond it fails with io.EOF right away.
+	r.err = io.EOF
 	return r
 }
 
